@@ -79,6 +79,8 @@ func Run(env *core.Env, p *load.Program, prop string, sel json.RawMessage) (*cor
 			sw.writeset(a)
 		case "guardedcall":
 			sw.guardedcall(a)
+		case "callorder":
+			sw.callorder(a)
 		default:
 			return nil, fmt.Errorf("unknown sweep analysis %q", a.Kind)
 		}
